@@ -315,12 +315,26 @@ func (g *Global) parseSpecFile(path string) error {
 		}
 		for k, u := range c2.Units {
 			u.File = path
-			if _, dup := g.C.Units[k]; dup {
+			if prev, dup := g.C.Units[k]; dup {
+				if prev.Trusted && u.Trusted {
+					// the same library function specified in two spec files: the clauses accumulate
+					prev.Requires = append(prev.Requires, u.Requires...)
+					prev.Ensures = append(prev.Ensures, u.Ensures...)
+					prev.Modifies = append(prev.Modifies, u.Modifies...)
+					prev.HasMod = prev.HasMod || u.HasMod
+					for o := range u.Opts {
+						prev.Opts[o] = true
+					}
+					continue
+				}
 				return fmt.Errorf("%s: duplicate unit %s", path, k)
 			}
 			g.C.Units[k] = u
 		}
 		for k, s := range c2.Specs {
+			if prev, dup := g.C.Specs[k]; dup && (prev.BodyTxt != s.BodyTxt || prev.Result != s.Result) {
+				return fmt.Errorf("%s: spec function %s declared twice with different definitions", path, k)
+			}
 			g.C.Specs[k] = s
 		}
 		for k, s := range c2.Ghosts {
@@ -389,6 +403,23 @@ func (g *Global) tagsImplementing(iface types.Type) []int {
 		}
 	}
 	return out
+}
+
+func (g *Global) tagsImplementingSplit(iface types.Type) (pos, neg []int) {
+	it, ok := iface.Underlying().(*types.Interface)
+	if !ok {
+		return nil, nil
+	}
+	g.mu.Lock()
+	defer g.mu.Unlock()
+	for i, t := range g.tagTypes {
+		if types.Implements(t, it) {
+			pos = append(pos, i+1)
+		} else {
+			neg = append(neg, i+1)
+		}
+	}
+	return
 }
 
 // ---------- source text for obligation names ----------
